@@ -35,6 +35,8 @@ type Obligation struct {
 	known      bool
 	Cases      []string
 	Vacuous    bool // the obligation's program point is unreachable under the assumptions (contradiction)
+	Fn         *ssa.Function // the function under contract this obligation belongs to (top frame), for generated replays
+	ModelSorts []string      // SMT sort of each model term
 }
 
 // Unit: the verification unit of one function (or one lemma): an SMT log shared by its obligations.
